@@ -8,7 +8,9 @@ import re
 from collections import OrderedDict as odict
 
 # (some head words merely BEGIN with a vendor's negation prefix: 'notify', 'undolog' are ordinary commands)
-HEADS = ["alpha", "beta", "gamma", "delta", "eps", "zeta", "eta", "theta", "iota", "kappa", "notify", "undolog", "node"]
+# (and some are proper prefixes of others: 'beta' / 'betamax', 'alpha' / 'alphabet' -- like 'ip' / 'ipv6')
+HEADS = ["alpha", "beta", "gamma", "delta", "eps", "zeta", "eta", "theta", "iota", "kappa", "notify", "undolog", "node",
+         "betamax", "alphabet"]
 BLOCK_HEADS = ["interface", "vrf", "group", "policy", "zone"]
 GLOBAL_HEADS = ["gdesc", "gnote"]
 KEYS = ["k1", "k2", "k3", "10", "20"]
